@@ -1119,6 +1119,8 @@ class Engine:
                 test_fn = lambda s: s.env[idx_name] < zlen(s)  # noqa
                 return self.cut_for(n, st, spec, lid, idx_name, test_fn, pre_body, z3.IntVal(0), zlen)
         seqv = self.ev(it2, st)
+        if isinstance(seqv, MaybeNone):
+            seqv = seqv.value        # on this path `is not None` has been established by the code
         if isinstance(seqv, Coll):
             seqv = ('absiter', seqv, 'values')
         if isinstance(seqv, tuple) and len(seqv) == 3 and seqv[0] == 'absiter':
@@ -2303,6 +2305,8 @@ def _maxmin(is_max):
 
 def _len(ex, st, args, kw, node):
     v = args[0]
+    if isinstance(v, MaybeNone):
+        v = v.value
     if isinstance(v, Coll):
         return v.n
     if isinstance(v, tuple) and len(v) == 2 and v[0] == 'absiter':
